@@ -74,6 +74,8 @@ def run_discs(c):
             cls.append(name)
     if r1 == r2:
         cls.append("equal-radii")
+    if d > 0 and abs(d * d - abs(r1 * r1 - r2 * r2)) <= 4 * math.ulp(d * d):
+        cls.append("chord-through-centre")
     if d == 0:
         cls.append("concentric")
     elif 0 < ref < small:
@@ -105,7 +107,14 @@ def discs_s(draw):
     else:
         x1 = draw(st.floats(-1e4, 1e4, allow_nan=False))
         y1 = draw(st.floats(-1e4, 1e4, allow_nan=False))
-    kind = draw(st.sampled_from(["ext", "ext", "int", "int", "zero", "inside", "cross", "far", "rand"]))
+    kind = draw(st.sampled_from(["ext", "ext", "int", "int", "zero", "inside", "cross", "far", "rand", "pyth"]))
+    if kind == "pyth":
+        # the common chord passes exactly through one of the centres: d^2 == |r1^2 - r2^2| in floating point
+        a, b, c = draw(st.sampled_from([(5, 3, 4), (5, 4, 3), (13, 12, 5), (13, 5, 12), (17, 8, 15), (25, 7, 24), (10, 6, 8)]))
+        sc = draw(st.sampled_from([1.0, 0.5, 2.0, 0.25, 0.125, 4.0]))
+        r1, r2 = a * sc, b * sc
+        if draw(st.booleans()):
+            r1, r2 = r2, r1
     if kind == "ext":
         D = r1 + r2
     elif kind == "int":
@@ -118,6 +127,8 @@ def discs_s(draw):
         D = abs(r1 - r2) + (r1 + r2 - abs(r1 - r2)) * draw(st.floats(0, 1, allow_nan=False))
     elif kind == "far":
         D = (r1 + r2) * draw(st.floats(1, 50, allow_nan=False))
+    elif kind == "pyth":
+        D = c * sc
     else:
         D = draw(st.floats(0, 2000, allow_nan=False))
     dk = draw(_i(0, 4))
@@ -133,7 +144,7 @@ def discs_s(draw):
         ang = draw(st.floats(0, 6.283185307179586, allow_nan=False))
         ux, uy = math.cos(ang), math.sin(ang)
     x2, y2 = x1 + D * ux, y1 + D * uy
-    ulps = draw(_i(-4, 4))
+    ulps = draw(_i(-4, 4)) if kind != "pyth" or draw(st.booleans()) else 0
     for _ in range(abs(ulps)):
         if abs(ux) >= abs(uy):
             x2 = math.nextafter(x2, math.inf if ulps > 0 else -math.inf)
@@ -144,4 +155,4 @@ def discs_s(draw):
 
 def subchecks():
     return [Sub("discs", run_discs, strategy=discs_s(), n_quick=60000, n_thorough=1500000,
-                required=("ext-tangent", "int-tangent", "equal-radii", "concentric", "crossing", "apart", "nested"))]
+                required=("ext-tangent", "int-tangent", "equal-radii", "concentric", "crossing", "apart", "nested", "chord-through-centre"))]
